@@ -878,6 +878,12 @@ def audit_return_forms(ctx):
                         v_ = st.value
                         conv = isinstance(v_, ast.Call) and norm_text(v_.func) in ("np.array", "np.asarray", "numpy.array", "list", "tuple", "sorted") and len(v_.args) == 1 \
                             and isinstance(v_.args[0], ast.Name) and v_.args[0].id == t.id and all(k.arg == "dtype" for k in v_.keywords)
+                        # (np.append(L, v) / np.append(np.array(L), v) adds an element: the rules that read the loop judge what is appended)
+                        if isinstance(v_, ast.Call) and norm_text(v_.func) in ("np.append", "numpy.append") and len(v_.args) == 2 and not v_.keywords:
+                            a0 = v_.args[0]
+                            if isinstance(a0, ast.Call) and norm_text(a0.func) in ("np.array", "np.asarray") and len(a0.args) == 1:
+                                a0 = a0.args[0]
+                            conv = isinstance(a0, ast.Name) and a0.id == t.id
                         if not conv:
                             hit = st
                 if hit is not None:
